@@ -31,7 +31,16 @@ type ProcPlan struct {
 	CollectFirst bool `json:"collect_first,omitempty"`
 	// Batch > 1: operations are submitted Batch at a time (Process is variadic).
 	Batch int `json:"batch,omitempty"`
+	// DrainAfterWait (only when len(Ops) <= Buffer): one client submits
+	// everything, closes the queue, waits, and only then collects the results:
+	// the result buffer was asked to be large enough for that.
+	DrainAfterWait bool `json:"drain_after_wait,omitempty"`
 }
+
+// Operations numbered <= panicBase panic instead of returning; the Processor
+// documents that it recovers them into an error Result (the worker then ends,
+// so a workload holds fewer panicking operations than workers).
+const panicBase = -100000
 
 // effectiveThreads is what NewProcessor documents: a thread count below 1 or
 // above GOMAXPROCS means GOMAXPROCS (pinned by the harness).
@@ -49,6 +58,9 @@ type procErr struct{ n int }
 func (e procErr) Error() string { return fmt.Sprintf("operation error %d", e.n) }
 
 func (o procOp) Operation() (interface{}, error) {
+	if o.v <= panicBase {
+		panic(fmt.Sprintf("operation %d panics", panicBase-o.v))
+	}
 	if o.v < 0 {
 		return nil, procErr{-o.v}
 	}
@@ -65,6 +77,9 @@ func runProcessor(t *testing.T, c *Case, o RunOpts) *Result {
 	if err := json.Unmarshal(c.Plan, &pl); err != nil {
 		return &Result{ToolErr: err.Error()}
 	}
+	if pl.DrainAfterWait && pl.Buffer < len(pl.Ops) {
+		pl.DrainAfterWait = false // only meaningful when the buffer holds every result
+	}
 	return execSim(t, c, o, 4000+400*len(pl.Ops)*effectiveThreads(pl.Threads), false, func(sim *simrt.Sim) func() {
 		var got []int
 		consumerDone, waitReturned, closedSeen := false, false, false
@@ -72,6 +87,33 @@ func runProcessor(t *testing.T, c *Case, o RunOpts) *Result {
 		sim.Client("main", func() {
 			queue := make(chan concurrent.Operator, pl.Queue)
 			p = concurrent.NewProcessor(queue, pl.Buffer, pl.Threads)
+			if pl.DrainAfterWait {
+				// single caller: submit, close, wait, then collect
+				sim.Go("caller", func() {
+					for _, v := range pl.Ops {
+						p.Process(procOp{v})
+					}
+					p.Close()
+					p.Wait()
+					waitReturned = true
+					for {
+						v, err := p.Result()
+						if v == nil && err == nil {
+							break
+						}
+						if err != nil {
+							var pe procErr
+							if errors.As(err, &pe) {
+								got = append(got, -pe.n)
+							}
+						} else if n, ok := v.(int); ok {
+							got = append(got, n)
+						}
+					}
+					consumerDone = true
+				})
+				return
+			}
 			sim.Go("producer", func() {
 				if pl.Batch > 1 {
 					for i := 0; i < len(pl.Ops); i += pl.Batch {
@@ -106,8 +148,16 @@ func runProcessor(t *testing.T, c *Case, o RunOpts) *Result {
 					}
 					if err != nil {
 						var pe procErr
+						var pn int
 						if errors.As(err, &pe) && v == nil {
 							got = append(got, -pe.n)
+						} else if i := strings.Index(err.Error(), "operation "); i >= 0 && v == nil {
+							if _, e2 := fmt.Sscanf(err.Error()[i:], "operation %d panics", &pn); e2 == nil {
+								got = append(got, panicBase-pn) // the recovered panic of that operation
+							} else {
+								sim.Fail("oracle", "processor-result", fmt.Sprintf("unexpected result (%v, %v)", v, err))
+								got = append(got, 0)
+							}
 						} else {
 							sim.Fail("oracle", "processor-result", fmt.Sprintf("unexpected result (%v, %v)", v, err))
 							got = append(got, 0)
@@ -180,6 +230,24 @@ func genProcessor(r *simrt.RNG) *Case {
 			n = r.Range(25, 60)
 		}
 	}
+	if n > 0 && r.Intn(8) == 0 {
+		// submit everything, close, wait, collect: needs a result buffer that
+		// holds all results and a queue that holds all operations or workers
+		// that keep draining it (they do: results never block)
+		pl.Buffer = n + r.Intn(3)
+		pl.DrainAfterWait = true
+		pl.Waiter = true
+		for i := 0; i < n; i++ {
+			v := i + 1
+			if r.Intn(4) == 0 {
+				v = -v
+			}
+			pl.Ops = append(pl.Ops, v)
+		}
+		b, _ := json.Marshal(pl)
+		return &Case{Prop: "C19", Kind: "processor", Plan: b,
+			Sched: PickStrategy(r, 40+20*n, []string{procWorkerSite, "client:"}, nil)}
+	}
 	pl.CollectFirst = r.Intn(3) == 0
 	if r.Intn(4) == 0 {
 		pl.Batch = r.Range(2, 5)
@@ -193,6 +261,17 @@ func genProcessor(r *simrt.RNG) *Case {
 			v = 0 // an operation whose value and error are both nil
 		}
 		pl.Ops = append(pl.Ops, v)
+	}
+	if T >= 2 && n > 0 && r.Intn(6) == 0 {
+		// a panicking operation is recovered into an error Result and ends
+		// its worker: keep fewer of them than workers
+		for k := r.Range(1, minInt(T-1, 2)); k > 0; k-- {
+			i := r.Intn(n)
+			if r.Bool() {
+				i = n - 1 // the last operation: its worker may be the last to exit
+			}
+			pl.Ops[i] = panicBase - (i + 1)
+		}
 	}
 	b, _ := json.Marshal(pl)
 	return &Case{Prop: "C19", Kind: "processor", Plan: b,
@@ -224,7 +303,7 @@ func shrinkProcessor(c *Case) []*Case {
 		q.Batch = 0
 		add(q)
 	}
-	if pl.Buffer > 0 {
+	if pl.Buffer > 0 && !(pl.DrainAfterWait && pl.Buffer <= len(pl.Ops)) {
 		q := pl
 		q.Buffer--
 		add(q)
@@ -240,7 +319,7 @@ func shrinkProcessor(c *Case) []*Case {
 		add(q)
 	}
 	for i, v := range pl.Ops {
-		if v < 0 {
+		if v < 0 && v > panicBase {
 			q := pl
 			q.Ops = append([]int(nil), pl.Ops...)
 			q.Ops[i] = -v
